@@ -869,3 +869,91 @@ Proof.
   split; [intros u Hu; cbn in Hu; destruct Hu as [<-|[]]; reflexivity|]. split; [reflexivity|].
   intros u Hu. cbn in Hu. destruct Hu as [<-|[]]. reflexivity.
 Qed.
+
+(* ------------------------------------------------------------------ tables with callables / files *)
+Definition strip_item (i : pitem) := (i_id i, i_kind i, i_cond i).
+Definition strip_post (q : ppost) := (q_id q, q_kind q, q_cond q).
+Definition strip_fin (x : pfin) := (f_sep x, f_pre x, f_suf x).
+(* p is a pipeline with the content of definition d (object identities apart) *)
+Definition same_content (p : ppl) (d : pdef) : Prop :=
+  map strip_item (p_items p) = map strip_item (d_items d) /\
+  map strip_post (p_post p) = map strip_post (d_post d) /\
+  map strip_fin (p_fin p) = map strip_fin (d_fin d) /\ p_prio p = d_prio d /\ p_name p = d_name d.
+Definition inst_of (e : str * rent ppl) (p : ppl) : Prop :=
+  match snd e with
+  | RObj q => p = q
+  | RCall d => same_content p d
+  | RSeq ds => exists c, same_content p (seq_pick c ds)
+  end.
+Definition no_seq (t : list (str * rent ppl)) : Prop := forall e ds, In e t -> snd e <> RSeq ds.
+
+Lemma strip_renum_items l : forall u, map strip_item (renum_items u l) = map strip_item l.
+Proof. induction l as [|i l IH]; intros u; cbn; [reflexivity|]. rewrite IH. reflexivity. Qed.
+Lemma strip_renum_post l : forall u, map strip_post (renum_post u l) = map strip_post l.
+Proof. induction l as [|i l IH]; intros u; cbn; [reflexivity|]. rewrite IH. reflexivity. Qed.
+Lemma strip_renum_fin l : forall u, map strip_fin (renum_fin u l) = map strip_fin l.
+Proof. induction l as [|i l IH]; intros u; cbn; [reflexivity|]. rewrite IH. reflexivity. Qed.
+
+Lemma mk_def_content h c d h' p : mk_def h (renum c d) = (h', Ok p) -> same_content p d.
+Proof.
+  unfold mk_def. intros E. apply mk_ok in E. destruct E as (_ & -> & _).
+  unfold same_content, renum. cbn [p_items p_post p_fin p_prio p_name d_items d_post d_fin d_prio d_name].
+  rewrite strip_renum_items, strip_renum_post, strip_renum_fin. repeat split.
+Qed.
+
+Definition info_rel (es : (str * rent ppl) * str) (ps : ppl * str) : Prop :=
+  inst_of (fst es) (fst ps) /\ snd ps = snd es /\ p_prio (fst ps) = ent_prio (fst es).
+
+Lemma minst_rel l : forall h c hc infos,
+  (forall x ds, In x l -> snd (fst x) <> RSeq ds) ->
+  minst_all h c l = (hc, Ok infos) -> Forall2 info_rel l infos.
+Proof.
+  induction l as [|es l IH]; intros h c hc infos NS E; cbn [minst_all] in E.
+  - inversion E; subst. constructor.
+  - assert (NS' : forall x ds, In x l -> snd (fst x) <> RSeq ds) by (intros x ds Hx; apply NS; right; exact Hx).
+    destruct (snd (fst es)) as [q|d|ds] eqn:Ee.
+    + destruct (minst_all h c l) as [hc1 r1] eqn:E1. cbn [fst snd] in E. destruct r1 as [x|?|?]; cbn [obind] in E; try discriminate.
+      inversion E; subst. constructor; [|eapply IH; eassumption].
+      unfold info_rel, inst_of, ent_prio. cbn [fst snd]. rewrite Ee. repeat split.
+    + destruct (mk_def h (renum c d)) as [h1 r0] eqn:Em. cbn [fst snd] in E. destruct r0 as [p|?|?]; try discriminate.
+      destruct (minst_all h1 (N.succ c) l) as [hc1 r1] eqn:E1. cbn [fst snd] in E. destruct r1 as [x|?|?]; cbn [obind] in E; try discriminate.
+      inversion E; subst. constructor; [|eapply IH; eassumption].
+      pose proof (mk_def_content _ _ _ _ _ Em) as SC.
+      unfold info_rel, inst_of, ent_prio. cbn [fst snd]. rewrite Ee. split; [exact SC|]. split; [reflexivity|]. apply SC.
+    + exfalso. apply (NS es ds); [left; reflexivity | exact Ee].
+Qed.
+
+Section SortRel.
+  Context {A B : Type} (R : A -> B -> Prop) (leA : A -> A -> bool) (leB : B -> B -> bool).
+  Hypothesis le_rel : forall a b a' b', R a b -> R a' b' -> leA a a' = leB b b'.
+  Lemma insert_F2 a b l1 l2 : R a b -> Forall2 R l1 l2 -> Forall2 R (insert leA a l1) (insert leB b l2).
+  Proof.
+    intros Hab F. induction F as [|x y l1 l2 Hxy F IH]; cbn.
+    - constructor; [exact Hab | constructor].
+    - rewrite (le_rel _ _ _ _ Hab Hxy). destruct (leB b y).
+      + constructor; [exact Hab|]. constructor; assumption.
+      + constructor; assumption.
+  Qed.
+  Lemma isort_F2 l1 l2 : Forall2 R l1 l2 -> Forall2 R (isort leA l1) (isort leB l2).
+  Proof. induction 1; cbn; [constructor | apply insert_F2; assumption]. Qed.
+End SortRel.
+
+Lemma F2_map_fst {A B C D} (R : A * C -> B * D -> Prop) (Q : A -> B -> Prop) l1 l2 :
+  (forall x y, R x y -> Q (fst x) (fst y)) -> Forall2 R l1 l2 -> Forall2 Q (map fst l1) (map fst l2).
+Proof. intros H F. induction F; cbn; constructor; auto. Qed.
+
+(* for every table without callables-with-memory: the pipelines that resolve() sums (see
+   Model.Pipeline.resolve) are, one by one and in this order, the entries of the permutation-invariant
+   (priority, identifier) order: the registered object itself, or a fresh pipeline with the content of
+   the callable's / file's definition *)
+Lemma resolve_instances h c t specs l hc infos : no_seq t ->
+  resolve_all tab_nm t specs = Some l -> minst_all h c l = (hc, Ok infos) ->
+  Forall2 inst_of (map fst (isort (info_leb ent_prio) l)) (map fst (isort (info_leb p_prio) infos)).
+Proof.
+  intros NS El Ei.
+  assert (F : Forall2 info_rel l infos).
+  { eapply minst_rel; [|exact Ei]. intros x ds Hx. apply NS. eapply resolve_all_in; eassumption. }
+  apply (F2_map_fst info_rel inst_of); [intros x y Hxy; apply Hxy|].
+  apply isort_F2; [|exact F].
+  intros a b a' b' (_ & S1 & P1) (_ & S2 & P2). unfold info_leb, info_key. rewrite S1, S2, P1, P2. reflexivity.
+Qed.
